@@ -5,6 +5,7 @@ import (
 	"strings"
 
 	"github.com/goatcms/goatcore/varutil"
+	"github.com/goatcms/goatcore/varutil/goaterr"
 )
 
 // mkdirAll crete directories recursive
@@ -17,6 +18,9 @@ func mkdirAllNodes(d *Dir, nodesPath []string, filemode os.FileMode) (dir *Dir, 
 	for _, nodeName := range nodesPath {
 		if nodeName == "" || nodeName == currentDir {
 			continue
+		}
+		if nodeName == parentDir {
+			return nil, goaterr.Errorf("%s: break isolation space", strings.Join(nodesPath, "/"))
 		}
 		if d, err = d.mkdir(nodeName, filemode); err != nil {
 			return nil, err
